@@ -316,3 +316,9 @@ class Unpad(Case):
 
 for c in (Pad, Continue, Remove, Unpad):
     register(c())
+
+
+# ---- lemmas for the stubs this check relies on (see props.common.Borrowed) ----
+from props.common import Borrowed, REGISTRY
+from props import c01 as _c01
+register(Borrowed(REGISTRY['C01.reverse_byte'], 'C09', 'reverse_byte'))
